@@ -29,10 +29,10 @@ RULE = ("states = start models + successors under the full alphabet to the state
         "tuple) calls; non-trivial = the call returned normally with a value different from its input")
 ASSUMPTIONS = ["argument menus are finite (first individual parameter, first covariate, literal option values)",
                "a call that raises is still required to leave its argument unchanged"]
-BOUNDS = {"quick": "start models + depth 1 (full alphabet), capped at 44 states; full call table",
+BOUNDS = {"quick": "start models + depth 1 (full alphabet), capped at 48 states; full call table",
           "thorough": "depth 2, capped at 400 states"}
 
-START = ["pheno", "pheno_oral", "pheno_linear", "pred_nl", "pred_dates"]
+START = ["pheno", "pheno_oral", "pheno_linear", "pred_nl", "pred_dates", "pheno_4block"]
 EXCLUDE = {"print_model_code", "print_model_symbols", "display_odes", "write_csv", "plot_vpc", "bump_model_number",
            "load_dataset", "set_dataset", "create_config_template", "read_model", "read_model_from_string", "load_example_model",
            "solve_ode_system", "plot_abs_cwres_vs_ipred", "plot_cwres_vs_idv", "plot_dv_vs_ipred", "plot_dv_vs_pred",
@@ -54,7 +54,7 @@ def drive(tier):
 
     from vlib import seqx
 
-    return seqx.drive(sys.modules[__name__], tier, START, depth_limit=depth_limit(tier), max_states=44 if tier == "quick" else 400)
+    return seqx.drive(sys.modules[__name__], tier, START, depth_limit=depth_limit(tier), max_states=48 if tier == "quick" else 440)
 
 
 def run_shard(shard, tier):
@@ -166,6 +166,11 @@ def arg_menus(model):
     m["get_parameter_rv"] = [((ip,), {})]
     if eta:
         m["get_rv_parameters"] = [((eta,), {})]
+    if len(etas) >= 2:
+        # two random effects at once (with a joint block of four this leaves two behind)
+        m["split_joint_distribution"] = [((list(etas[:2]),), {})]
+        m["remove_iiv"] = [((list(etas[:2]),), {})]
+        m["create_joint_distribution"] = [((list(etas[:2]),), {})]
     m["get_unit_of"] = [((cols[0],), {})]
     m["has_random_effect"] = [((ip,), {})]
     m["rename_symbols"] = [(({ip: ip + "_RN"},), {})]
